@@ -147,6 +147,19 @@ def gen_cli(seed: int, n: int) -> List[Scn]:
     return out
 
 
+def gen_inmem(seed: int, n: int) -> List[Scn]:
+    """Hook / dependency / outcome scenarios through InMemoryBroker (its own Receiver wiring, kick() -> callback())."""
+    out: List[Scn] = []
+    for fam in (gen_pipe(seed + 211, n // 2), gen_deps(seed + 211, n - n // 2)):
+        for k, scn in enumerate(fam):
+            cfg = dict(scn["cfg"], via="inmem", A=0, P=0, N=0, W=-1, ackable=False, ack_async=False, inplace=k % 2 == 1)
+            cfg.pop("ack_future", None)
+            cfg["msgs"] = [dict(m, ackfail=False) for m in cfg["msgs"]]
+            steps = [st for st in scn["steps"] if st[0] not in ("stop", "stop_")]
+            out.append({"cfg": cfg, "steps": steps, "family": "inmem:" + str(scn.get("family")), "noconf": True})
+    return out
+
+
 def gen_saturation(seed: int, n: int) -> List[Scn]:
     """C04/C03: finite A, P; big backlog, slow tasks, idle poll storms, bursts."""
     rng = random.Random(("sat", seed).__repr__())
